@@ -353,7 +353,7 @@ def judge_trace(chk, module, cfg, name, trace_file, describe, benign=("model",),
     n = count_lines(trace_file)
     if n == 0:
         return 0
-    r = tlc_trace(module, cfg, name, trace_file, timeout=timeout)
+    r = tlc_trace(module, cfg, name, trace_file, timeout=timeout, env={"DEFS": os.environ.get("DEFS", "")})
     chk.add_tlc(r)
     if count:
         chk.traces += n
